@@ -323,7 +323,12 @@ def gen_server_plan(rng, prof=None):
             'app': app, 'faults': faults, 'horizon': horizon,
             'app_opts': {'connect': connect,
                          'handler_faults': handler_faults,
-                         'coroutine_handlers': rng.random() < 0.7},
+                         'coroutine_handlers': rng.random() < 0.7,
+                         # (asyncio server: how often, in eighths, a
+                         # WebSocket write finds the buffer full and the
+                         # gateway suspends the writing task)
+                         'slow_ws_write': rng.choice([0, 0, 0, 0, 1, 2, 4])
+                         if server == 'asyncio' else 0},
             'rng_seed': rng.randint(0, 2 ** 31)}
     return plan
 
